@@ -8,6 +8,7 @@ cd /verif
 SNAP=$(mktemp -d /tmp/benignsnap.XXXXXX); trap 'rm -rf "$SNAP"' EXIT
 rsync -a --exclude .git /repo/ "$SNAP/"
 export MUT_SRC=$SNAP
+mkdir -p $SNAP/.verif && cp baseline_obligations.json baseline_params.json known_findings.json residue.json $SNAP/.verif/ && export MUT_VERIF=$SNAP/.verif
 bin/gcv list > $SNAP/.gcvlist 2>/dev/null
 ALL="C01 C02 C03 C04 C05 C06 C07 C08 C09 C11 C12 C13 C14 C15 C16 C17 C18 C19 C20"
 props_for_pkg() { # $1 = package dir, e.g. limit or metric_registry/gometrics
